@@ -30,7 +30,7 @@ PIDS=()
 for i in $(seq 1 "$WORKERS"); do
   mkdir -p "$WORK/c$i" "$WORK/a$i"; cp "$WORK/seeds"/* "$WORK/c$i/"
   ( cd "$WORK" && NFV_FUZZ_PROPS="$ID" "$BIN" "$WORK/c$i" -runs="$RUNS" -seed=$(( SEED * 1000 + i )) -max_len=4096 -len_control=0 \
-      -timeout=120 -rss_limit_mb=6144 -artifact_prefix="$WORK/a$i/" -print_final_stats=1 >"$WORK/log$i.txt" 2>&1; echo "exit=$?" >>"$WORK/log$i.txt" ) &
+      -timeout=900 -rss_limit_mb=6144 -artifact_prefix="$WORK/a$i/" -print_final_stats=1 >"$WORK/log$i.txt" 2>&1; echo "exit=$?" >>"$WORK/log$i.txt" ) &
   PIDS+=($!)
 done
 wait "${PIDS[@]}"
